@@ -1259,7 +1259,7 @@ val bc_segment : binstr list -> z -> z -> z option -> binstr list
 type facts = { f_c : amap1; f_d : z list; f_t : amap1; f_nz : expr list }
 
 type cert =
-| CLoop of z * z * facts
+| CLoop of z * z * facts * facts
 | CIf of facts
 
 val st_of_facts : facts -> sst1
